@@ -9,9 +9,10 @@ import Driver.Trigger
 import Driver.TripWire
 import Driver.SOH
 import Driver.DObj
+import Driver.Cow
 open Driver
 
-def comps : List Comp := [LatchD.comp, LockFamD.comp, BarrierD.comp, DeferredD.comp, TripWireD.comp, SOHD.comp, SOHD.compNoTap, TriggerD.comp, DDD.comp, DObjD.comp, LRD.comp, LRD.compStrict]
+def comps : List Comp := [LatchD.comp, LockFamD.comp, BarrierD.comp, DeferredD.comp, TripWireD.comp, SOHD.comp, SOHD.compNoTap, TriggerD.comp, DDD.comp, DObjD.comp, LRD.comp, LRD.compStrict, CowD.comp, CowD.compStrict]
 
 def main (args : List String) : IO UInt32 := do
   match args with
